@@ -75,7 +75,7 @@ def check(run):
                    rule="scenario = (arity 1-3, callers racing for the Once, callers arriving while the action is gated, callers after completion), "
                         "all combinations up to 3-4 / 2-3 / 2 plus seeded larger groups; the action blocks on a gate until the other callers are "
                         "seen parked inside sync.Once (goroutine states), then is released; run under the race detector")
-    run.cov["samples"] = [segs[len(segs) // 2]]
+    run.cov["samples"] = [segs[len(segs) // 2]] if segs else []
     run.assumptions += ["which of several simultaneous callers wins inside sync.Once cannot be chosen from outside; every outcome is validated",
                         "result types int"]
     for r in run.rejections:
